@@ -1,4 +1,834 @@
 (** Proofs about Model/Create.v (C01, C13). *)
-From Cooler Require Import Model.Create Proofs.PixelsProofs.
-From Coq Require Import Permutation Sorting.Sorted ZifyBool.
+From Cooler Require Import Model.Create Proofs.PixelsProofs Proofs.BinsProofs.
+From Coq Require Import Permutation Sorting.Sorted ZifyBool FinFun.
 Open Scope Z_scope.
+
+Section Write.
+Context {V : Type}.
+Notation rowT := (key * V)%type.
+Variable dflt : rowT.
+Variable fits : rowT -> bool.
+Variable count : option (rowT -> Z).
+
+Lemma chunk_total_app (a b : list rowT) :
+  chunk_total count (a ++ b) = chunk_total count a + chunk_total count b.
+Proof.
+  unfold chunk_total. destruct count as [f|]; [|lia].
+  rewrite map_app. unfold sumZ. induction (map f a); simpl; lia.
+Qed.
+
+Lemma chunk_total_nil : chunk_total count ([] : list rowT) = 0.
+Proof. unfold chunk_total. destruct count; reflexivity. Qed.
+
+Lemma zlen_app {A} (a b : list A) : zlen (a ++ b) = zlen a + zlen b.
+Proof. unfold zlen. rewrite app_length. lia. Qed.
+
+(** invariant of the loop: the first nnz stored rows are exactly what was consumed so far *)
+Definition WInv (st : @wstate V) (acc : list rowT) : Prop :=
+  let '(stored, nnz, total) := st in
+  nnz = zlen acc /\ firstn (length acc) stored = acc /\ total = chunk_total count acc.
+
+Lemma resize_length (l : list rowT) m : 0 <= m -> length (resize dflt l m) = Z.to_nat m.
+Proof.
+  intros Hm. unfold resize. rewrite app_length, firstn_length, repeat_length. lia.
+Qed.
+
+Lemma write_chunk_step maxsize stored nnz total acc c st' :
+  WInv (stored, nnz, total) acc ->
+  write_chunk dflt fits count maxsize (stored, nnz, total) c = inr st' ->
+  st' = (acc ++ c, zlen (acc ++ c), chunk_total count (acc ++ c)) /\
+  forallb fits c = true /\ zlen (acc ++ c) <= maxsize.
+Proof.
+  intros (Hn & Hf & Ht) H. unfold write_chunk in H.
+  destruct (maxsize <? nnz + zlen c) eqn:Hm; [discriminate|].
+  destruct (forallb fits c) eqn:Hfit; simpl in H; [|discriminate].
+  inversion H; subst st'; clear H.
+  rewrite zlen_app, chunk_total_app. subst nnz total.
+  split; [|split; [reflexivity|lia]].
+  assert (Hassign : assign_at (resize dflt stored (zlen acc + zlen c)) (zlen acc) c = acc ++ c).
+  { unfold assign_at, resize, zlen.
+    assert (Hlen : (length acc <= length stored)%nat).
+    { rewrite <- Hf at 1. rewrite firstn_length. lia. }
+    rewrite Nat2Z.id.
+    replace (Z.to_nat (Z.of_nat (length acc) + Z.of_nat (length c))) with (length acc + length c)%nat by lia.
+    rewrite firstn_app.
+    rewrite firstn_firstn. replace (Nat.min (length acc) (length acc + length c)) with (length acc) by lia.
+    rewrite Hf.
+    rewrite firstn_length.
+    replace (length acc - Nat.min (length acc + length c) (length stored))%nat with 0%nat by lia.
+    simpl. rewrite app_nil_r.
+    rewrite skipn_all2; [now rewrite app_nil_r|].
+    rewrite app_length, firstn_length, repeat_length. lia. }
+  now rewrite Hassign.
+Qed.
+
+Lemma write_pixels_inv validate maxsize : forall chunks st acc r,
+  WInv st acc ->
+  write_pixels dflt fits count validate maxsize st chunks = inr r ->
+  exists vch, Forall2 (fun c c' => validate c = inr c') chunks vch /\
+              WInv r (acc ++ concat vch) /\
+              Forall (fun c' => forallb fits c' = true) vch /\
+              (chunks <> [] -> fst (fst r) = acc ++ concat vch /\ zlen (acc ++ concat vch) <= maxsize).
+Proof.
+  induction chunks as [|c t IH]; intros st acc r Hinv H; simpl in H.
+  - inversion H; subst r. exists []. simpl. rewrite app_nil_r. repeat split; auto; congruence.
+  - destruct (validate c) as [e|c'] eqn:Hv; [discriminate|].
+    destruct st as [[stored nnz] total].
+    destruct (write_chunk dflt fits count maxsize (stored, nnz, total) c') as [e|st'] eqn:Hw; [discriminate|].
+    destruct (write_chunk_step _ _ _ _ _ _ _ Hinv Hw) as (Hst & Hfit & Hmax). subst st'.
+    assert (Hinv' : WInv (acc ++ c', zlen (acc ++ c'), chunk_total count (acc ++ c')) (acc ++ c')).
+    { unfold WInv. repeat split. now rewrite firstn_all. }
+    destruct (IH _ _ _ Hinv' H) as (vch & HF & Hr & Hfits & Hne).
+    exists (c' :: vch). simpl. rewrite app_assoc.
+    split; [constructor; auto|]. split; [exact Hr|]. split; [constructor; auto|].
+    intros _. destruct t as [|c2 t'].
+    + simpl in H. inversion H; subst r. inversion HF; subst. simpl. rewrite !app_nil_r. split; [reflexivity|exact Hmax].
+    + apply Hne. congruence.
+Qed.
+End Write.
+
+(** * validate_pixels *)
+Section Validate.
+Context {V : Type}.
+Notation rowT := (key * V)%type.
+
+Definition bad_id (n : Z) (r : rowT) : Prop :=
+  fst (fst r) < 0 \/ snd (fst r) < 0 \/ n <= fst (fst r) \/ n <= snd (fst r).
+
+Lemma has_neg_false (c : list rowT) :
+  has_neg c = false <-> Forall (fun r => 0 <= fst (fst r) /\ 0 <= snd (fst r)) c.
+Proof.
+  unfold has_neg. induction c as [|r t IH]; simpl.
+  - split; auto.
+  - rewrite orb_false_iff, IH. split.
+    + intros [H1 H2]. constructor; auto. lia.
+    + intros H. inversion H; subst. split; auto. lia.
+Qed.
+
+Lemma has_excess_false n (c : list rowT) :
+  has_excess n c = false <-> Forall (fun r => fst (fst r) < n /\ snd (fst r) < n) c.
+Proof.
+  unfold has_excess. induction c as [|r t IH]; simpl.
+  - split; auto.
+  - rewrite orb_false_iff, IH. split.
+    + intros [H1 H2]. constructor; auto. lia.
+    + intros H. inversion H; subst. split; auto. lia.
+Qed.
+
+Lemma has_tril_false (c : list rowT) :
+  has_tril c = false <-> Forall (fun r => fst (fst r) <= snd (fst r)) c.
+Proof.
+  unfold has_tril. induction c as [|r t IH]; simpl.
+  - split; auto.
+  - rewrite orb_false_iff, IH. split.
+    + intros [H1 H2]. constructor; auto. lia.
+    + intros H. inversion H; subst. split; auto. lia.
+Qed.
+
+Lemma keqb_eq (a b : key) : keqb a b = true <-> a = b.
+Proof. unfold keqb. destruct a, b; simpl. split; [intros H; f_equal; lia | intros H; inversion H; lia]. Qed.
+
+Lemma existsb_keqb_false (k : key) (t : list rowT) :
+  existsb (fun q => keqb k (fst q)) t = false <-> ~ In k (map fst t).
+Proof.
+  induction t as [|q t IH]; simpl.
+  - tauto.
+  - rewrite orb_false_iff, IH. split.
+    + intros [H1 H2] [H|H]; [|tauto]. subst k. rewrite (proj2 (keqb_eq _ _) eq_refl) in H1. discriminate.
+    + intros H. split; [|tauto]. destruct (keqb k (fst q)) eqn:E; [|reflexivity].
+      apply keqb_eq in E. subst. tauto.
+Qed.
+
+Lemma has_dup_false (c : list rowT) : has_dup c = false <-> NoDup (map fst c).
+Proof.
+  induction c as [|r t IH]; simpl.
+  - split; [constructor|reflexivity].
+  - rewrite orb_false_iff, IH, existsb_keqb_false. split.
+    + intros [H1 H2]. now constructor.
+    + intros H. inversion H; subst. tauto.
+Qed.
+
+Lemma validate_ok_shape n bc tc dc es (c c' : list rowT) :
+  validate_pixels n bc tc dc es c = inr c' -> c' = if es then sort_rows c else c.
+Proof.
+  unfold validate_pixels. intros H.
+  repeat match type of H with (if ?b then _ else _) = _ => destruct b; [discriminate|] end.
+  now inversion H.
+Qed.
+
+(** what an accepted chunk satisfies *)
+Definition chunk_ok (n : Z) (bc tc dc : bool) (c : list rowT) : Prop :=
+  (bc = true -> Forall (fun r => 0 <= fst (fst r) < n /\ 0 <= snd (fst r) < n) c) /\
+  (tc = true -> Forall (fun r => fst (fst r) <= snd (fst r)) c) /\
+  (dc = true -> NoDup (map fst c)).
+
+Lemma validate_ok_iff n bc tc dc es (c : list rowT) :
+  (exists c', validate_pixels n bc tc dc es c = inr c') <-> chunk_ok n bc tc dc c.
+Proof.
+  unfold validate_pixels, chunk_ok. split.
+  - intros [c' H].
+    destruct (bc && has_neg c) eqn:E1; [discriminate|].
+    destruct (bc && has_excess n c) eqn:E2; [discriminate|].
+    destruct (tc && has_tril c) eqn:E3; [discriminate|].
+    destruct (dc && has_dup c) eqn:E4; [discriminate|].
+    split; [|split].
+    + intros ->. simpl in E1, E2. apply has_neg_false in E1. apply has_excess_false in E2.
+      rewrite Forall_forall in *. intros r Hr. specialize (E1 r Hr). specialize (E2 r Hr). cbv beta in *. lia.
+    + intros ->. simpl in E3. now apply has_tril_false.
+    + intros ->. simpl in E4. now apply has_dup_false.
+  - intros (Hb & Ht & Hd).
+    assert (E1 : bc && has_neg c = false).
+    { destruct bc; [|reflexivity]. simpl. apply has_neg_false. specialize (Hb eq_refl).
+      rewrite Forall_forall in *. intros r Hr. specialize (Hb r Hr). cbv beta in *. lia. }
+    assert (E2 : bc && has_excess n c = false).
+    { destruct bc; [|reflexivity]. simpl. apply has_excess_false. specialize (Hb eq_refl).
+      rewrite Forall_forall in *. intros r Hr. specialize (Hb r Hr). cbv beta in *. lia. }
+    assert (E3 : tc && has_tril c = false).
+    { destruct tc; [|reflexivity]. simpl. apply has_tril_false. auto. }
+    assert (E4 : dc && has_dup c = false).
+    { destruct dc; [|reflexivity]. simpl. apply has_dup_false. auto. }
+    rewrite E1, E2, E3, E4. eauto.
+Qed.
+
+(** C13 validator_complete: with the default checks a chunk holding an out-of-range id, a lower-triangle
+    pixel (checked in symmetric mode) or a repeated key is rejected *)
+Lemma validator_complete n tc es (c : list rowT) :
+  (exists r, In r c /\ bad_id n r) \/
+  (tc = true /\ exists r, In r c /\ snd (fst r) < fst (fst r)) \/
+  ~ NoDup (map fst c) ->
+  exists e, validate_pixels n true tc true es c = inl e.
+Proof.
+  intros H.
+  destruct (validate_pixels n true tc true es c) as [e|c'] eqn:E; [eauto|exfalso].
+  assert (Hok : chunk_ok n true tc true c) by (apply (validate_ok_iff n true tc true es); eauto).
+  destruct Hok as (Hb & Ht & Hd). specialize (Hb eq_refl). specialize (Hd eq_refl).
+  destruct H as [(r & Hr & Hbad)|[(-> & r & Hr & Hlow)|Hdup]].
+  - rewrite Forall_forall in Hb. specialize (Hb r Hr). unfold bad_id, key in *. cbv beta in *. lia.
+  - specialize (Ht eq_refl). rewrite Forall_forall in Ht. specialize (Ht r Hr). unfold key in *. cbv beta in *. lia.
+  - tauto.
+Qed.
+
+(** which error: the checks fire in source order *)
+Lemma validator_error_kind n tc dc es (c : list rowT) e :
+  validate_pixels n true tc dc es c = inl e ->
+  (e = ErrNeg /\ has_neg c = true) \/
+  (e = ErrExcess /\ has_neg c = false /\ has_excess n c = true) \/
+  (e = ErrTril /\ tc = true /\ has_tril c = true) \/
+  (e = ErrDup /\ dc = true /\ has_dup c = true).
+Proof.
+  unfold validate_pixels. simpl. intros H.
+  destruct (has_neg c) eqn:E1; [inversion H; auto|].
+  destruct (has_excess n c) eqn:E2; [inversion H; auto|].
+  destruct tc; simpl in H.
+  - destruct (has_tril c) eqn:E3; [inversion H; auto 6|].
+    destruct dc; simpl in H; [|discriminate].
+    destruct (has_dup c) eqn:E4; [inversion H; auto 7|discriminate].
+  - destruct dc; simpl in H; [|discriminate].
+    destruct (has_dup c) eqn:E4; [inversion H; auto 7|discriminate].
+Qed.
+End Validate.
+
+(** * create *)
+Section CreateThm.
+Context {V : Type}.
+Notation rowT := (key * V)%type.
+Variable dflt : rowT.
+Variable fits : rowT -> bool.
+Variable count : option (rowT -> Z).
+
+Definition prep (es : bool) (c : list rowT) : list rowT := if es then sort_rows c else c.
+
+Lemma init_inv n su : WInv count (init_state dflt n su) [].
+Proof. unfold init_state, WInv. simpl. repeat split. unfold chunk_total. now destruct count. Qed.
+
+Lemma forall2_validate_shape n bc tc dc es (chunks vch : list (list rowT)) :
+  Forall2 (fun c c' => validate_pixels n bc tc dc es c = inr c') chunks vch ->
+  vch = map (prep es) chunks /\ Forall (chunk_ok n bc tc dc) chunks.
+Proof.
+  induction 1 as [|c c' t t' Hc _ IH]; simpl; [split; auto|].
+  destruct IH as [-> IH2]. split.
+  - f_equal. now apply validate_ok_shape in Hc.
+  - constructor; auto. apply (validate_ok_iff n bc tc dc es). eauto.
+Qed.
+
+(** C01 create_pixels_roundtrip / write_pixels_concat:
+    whenever creation succeeds, the pixel table reads back as exactly the concatenation of the chunks
+    (each sorted first when ensure_sorted is set), whatever the chunk sizes, empty chunks included;
+    nnz is its length and sum the total of the count column; every chunk passed the enabled checks. *)
+Theorem create_ok_spec n su bc tc dc es chunks c :
+  create dflt fits count n su bc tc dc es chunks = inr c ->
+  let stream := concat (map (prep es) chunks) in
+  c_rows c = stream /\
+  read_pixels c = stream /\
+  c_nnz c = zlen stream /\
+  c_sum c = chunk_total count stream /\
+  c_symm c = su /\ c_nbins c = n /\
+  Forall (chunk_ok n bc (tc && su) dc) chunks /\
+  Forall (fun r => fits r = true) stream /\
+  (chunks <> [] -> zlen stream <= max_size n su).
+Proof.
+  intros H stream. unfold create in H.
+  destruct (write_pixels dflt fits count _ _ _ chunks) as [e|[[stored nnz] total]] eqn:Hw; [discriminate|].
+  destruct (write_pixels_inv dflt fits count _ _ _ _ _ _ (init_inv n su) Hw) as (vch & HF & Hinv & Hfits & Hne).
+  apply forall2_validate_shape in HF. destruct HF as [-> Hok]. simpl in Hinv, Hne.
+  fold stream in Hinv, Hne. destruct Hinv as (Hn & Hf & Ht).
+  assert (Hrows : fst (fst (finish_pixels dflt (stored, nnz, total))) = stream /\
+                  snd (fst (finish_pixels dflt (stored, nnz, total))) = nnz /\
+                  snd (finish_pixels dflt (stored, nnz, total)) = total).
+  { unfold finish_pixels. destruct (nnz =? 0) eqn:E; simpl.
+    - repeat split. unfold resize. simpl.
+      destruct stream; [reflexivity|]. unfold zlen in Hn. simpl in Hn. lia.
+    - repeat split. destruct chunks as [|c0 t].
+      + simpl in Hw. unfold init_state in Hw. inversion Hw. lia.
+      + apply Hne. congruence. }
+  destruct (finish_pixels dflt (stored, nnz, total)) as [[stored' nnz'] total'].
+  simpl in Hrows. destruct Hrows as (-> & -> & ->).
+  inversion H; subst c; clear H. unfold read_pixels. simpl.
+  subst nnz. unfold zlen at 1. rewrite Nat2Z.id.
+  repeat split; auto.
+  - apply firstn_all.
+  - apply Forall_forall. intros r Hr. unfold stream in Hr. apply in_concat in Hr.
+    destruct Hr as (ch & Hch & Hr). rewrite Forall_forall in Hfits. specialize (Hfits ch Hch).
+    rewrite forallb_forall in Hfits. auto.
+  - intros Hc. now apply Hne.
+Qed.
+
+(** completeness: a stream whose chunks pass the checks, whose values fit and that is not longer than
+    max_size is accepted *)
+Lemma write_pixels_succeeds validate maxsize : forall chunks st acc,
+  WInv count st acc ->
+  Forall (fun c => exists c', validate c = inr c' /\ forallb fits c' = true /\ length c' = length c) chunks ->
+  zlen acc + zlen (concat chunks) <= maxsize ->
+  exists r, write_pixels dflt fits count validate maxsize st chunks = inr r.
+Proof.
+  induction chunks as [|c t IH]; intros st acc Hinv Hall Hmax; simpl.
+  - eauto.
+  - inversion Hall as [|? ? (c' & Hv & Hfit & Hlen) Hall']; subst.
+    rewrite Hv. destruct st as [[stored nnz] total].
+    assert (Hz : zlen c' = zlen c) by (unfold zlen; now rewrite Hlen).
+    simpl in Hmax. rewrite zlen_app in Hmax.
+    destruct (write_chunk dflt fits count maxsize (stored, nnz, total) c') as [e|st'] eqn:Hw.
+    + exfalso. unfold write_chunk in Hw. destruct Hinv as (Hn & _).
+      destruct (maxsize <? nnz + zlen c') eqn:E; [unfold zlen in *; lia|].
+      rewrite Hfit in Hw. discriminate.
+    + destruct (write_chunk_step _ _ _ _ _ _ _ _ _ _ Hinv Hw) as (-> & _ & _).
+      apply (IH _ (acc ++ c')).
+      * unfold WInv. repeat split. now rewrite firstn_all.
+      * exact Hall'.
+      * rewrite zlen_app. lia.
+Qed.
+
+Lemma sort_rows_length (l : list rowT) : length (sort_rows l) = length l.
+Proof.
+  assert (Hins : forall (r : rowT) (s : list rowT), length (insert_row r s) = S (length s)).
+  { intros r s. induction s as [|h t IH]; simpl; [reflexivity|]. destruct (kltb (fst h) (fst r)); simpl; auto. }
+  induction l as [|r t IH]; simpl; [reflexivity|]. rewrite Hins. now rewrite IH.
+Qed.
+
+Lemma forallb_insert_row (r : rowT) s : forallb fits (insert_row r s) = fits r && forallb fits s.
+Proof.
+  induction s as [|h t IH]; simpl; [reflexivity|].
+  destruct (kltb (fst h) (fst r)); simpl; [rewrite IH|]; destruct (fits r), (fits h); reflexivity.
+Qed.
+Lemma forallb_sort_rows (l : list rowT) : forallb fits (sort_rows l) = forallb fits l.
+Proof. induction l as [|r t IH]; simpl; [reflexivity|]. now rewrite forallb_insert_row, IH. Qed.
+
+Theorem create_succeeds n su bc tc dc es chunks :
+  Forall (chunk_ok n bc (tc && su) dc) chunks ->
+  Forall (fun r => fits r = true) (concat chunks) ->
+  zlen (concat chunks) <= max_size n su ->
+  exists c, create dflt fits count n su bc tc dc es chunks = inr c.
+Proof.
+  intros Hok Hfit Hmax. unfold create.
+  destruct (write_pixels_succeeds (validate_pixels n bc (tc && su) dc es) (max_size n su) chunks _ _ (init_inv n su)) as [[[stored nnz] total] Hr].
+  - rewrite Forall_forall in *. intros c Hc.
+    destruct (proj2 (validate_ok_iff n bc (tc && su) dc es c) (Hok c Hc)) as [c' Hc'].
+    exists c'. split; [exact Hc'|]. apply validate_ok_shape in Hc'. subst c'.
+    assert (Hfc : forallb fits c = true).
+    { apply forallb_forall. intros r Hr. apply Hfit. apply in_concat. eauto. }
+    destruct es; [rewrite forallb_sort_rows, sort_rows_length|]; auto.
+  - simpl. exact Hmax.
+  - rewrite Hr. destruct (finish_pixels dflt (stored, nnz, total)) as [[? ?] ?]. eauto.
+Qed.
+End CreateThm.
+
+(** * ArrayLoader *)
+Fixpoint span_rec (r : Z) (X : list (list Z)) : list pixel :=
+  match X with [] => [] | x :: t => row_entries r x ++ span_rec (r + 1) t end.
+
+Lemma span_chunk_gen lo : forall X a,
+  concat (map (fun ix : Z * list Z => row_entries (lo + fst ix) (snd ix)) (combine (zrange a (length X)) X))
+  = span_rec (lo + a) X.
+Proof.
+  induction X as [|x t IH]; intros a; [reflexivity|].
+  cbn [length]. rewrite zrange_cons. cbn [combine map concat fst snd span_rec].
+  f_equal. rewrite IH. f_equal. lia.
+Qed.
+
+Lemma span_chunk_rec lo X : span_chunk lo X = span_rec lo X.
+Proof. unfold span_chunk, enumerate. rewrite span_chunk_gen. f_equal. lia. Qed.
+
+Lemma span_rec_app : forall X Y lo, span_rec lo (X ++ Y) = span_rec lo X ++ span_rec (lo + zlen X) Y.
+Proof.
+  induction X as [|x t IH]; intros Y lo; simpl.
+  - f_equal. unfold zlen. simpl. lia.
+  - rewrite IH, app_assoc. do 2 f_equal. unfold zlen. simpl length. lia.
+Qed.
+
+Lemma skipn_add {T} (l : list T) : forall b a, skipn a (skipn b l) = skipn (a + b) l.
+Proof.
+  revert l. intros l b. revert l. induction b as [|b IH]; intros l a.
+  - simpl. now rewrite Nat.add_0_r.
+  - rewrite Nat.add_succ_r. destruct l as [|x t]; simpl; [now destruct a|]. apply IH.
+Qed.
+
+Lemma partition_concat (A : list (list Z)) c : 1 <= c ->
+  forall fuel i, 0 <= i -> (Z.to_nat (zlen A - i) <= fuel)%nat ->
+  concat (map (fun lh : Z * Z => span_rec (fst lh) (slice A (fst lh) (snd lh))) (partition_fuel fuel i (zlen A) c))
+  = span_rec i (skipn (Z.to_nat i) A).
+Proof.
+  intros Hc. induction fuel as [|f IH]; intros i Hi Hf.
+  - simpl. rewrite skipn_all2; [reflexivity|]. unfold zlen in Hf. lia.
+  - simpl. destruct (i <? zlen A) eqn:E.
+    + cbn [map concat fst snd]. rewrite IH by lia.
+      set (m := Z.min (i + c) (zlen A)).
+      assert (Hm : i < m <= zlen A) by lia.
+      unfold slice.
+      rewrite <- (firstn_skipn (Z.to_nat (m - i)) (skipn (Z.to_nat i) A)) at 2.
+      rewrite span_rec_app. f_equal.
+      assert (Hl : zlen (firstn (Z.to_nat (m - i)) (skipn (Z.to_nat i) A)) = m - i).
+      { unfold zlen in *. rewrite firstn_length, skipn_length. lia. }
+      rewrite Hl, skipn_add.
+      replace (Z.to_nat (m - i) + Z.to_nat i)%nat with (Z.to_nat m) by lia.
+      replace (i + (m - i)) with m by lia.
+      destruct (Z.le_gt_cases (i + c) (zlen A)) as [Hle|Hgt].
+      * replace m with (i + c) by lia. reflexivity.
+      * rewrite (skipn_all2 (n := Z.to_nat (i + c))) by (unfold zlen in *; lia).
+        rewrite (skipn_all2 (n := Z.to_nat m)) by (unfold zlen in *; lia). reflexivity.
+    + rewrite skipn_all2; [reflexivity|]. unfold zlen in *. lia.
+Qed.
+
+(** the chunks of ArrayLoader concatenate to the whole-array sparsification, for every chunksize >= 1 *)
+Theorem array_loader_concat A c : 1 <= c -> concat (array_loader A c) = triu_entries A.
+Proof.
+  intros Hc. unfold array_loader, triu_entries, partition.
+  rewrite span_chunk_rec.
+  rewrite (map_ext _ (fun lh : Z * Z => span_rec (fst lh) (slice A (fst lh) (snd lh)))) by (intros; apply span_chunk_rec).
+  rewrite (partition_concat A c Hc) by lia. reflexivity.
+Qed.
+
+(** membership: exactly the non-zero entries on or above the diagonal, each with its value *)
+Lemma in_enumerate_gen (xs : list Z) : forall a j v,
+  In (j, v) (combine (zrange a (length xs)) xs) <-> a <= j /\ nth_error xs (Z.to_nat (j - a)) = Some v.
+Proof.
+  induction xs as [|x t IH]; intros a j v.
+  - simpl. split; [tauto|]. intros [_ H]. destruct (Z.to_nat (j - a)); discriminate.
+  - cbn [length]. rewrite zrange_cons. cbn [combine In]. rewrite IH. split.
+    + intros [H|[H1 H2]].
+      * inversion H; subst. split; [lia|]. replace (j - j) with 0 by lia. reflexivity.
+      * split; [lia|]. replace (Z.to_nat (j - a)) with (S (Z.to_nat (j - (a + 1)))) by lia. exact H2.
+    + intros [H1 H2]. destruct (Z.eq_dec j a) as [->|Hne].
+      * left. replace (a - a) with 0 in H2 by lia. simpl in H2. congruence.
+      * right. split; [lia|]. replace (Z.to_nat (j - a)) with (S (Z.to_nat (j - (a + 1)))) in H2 by lia. exact H2.
+Qed.
+
+Lemma in_row_entries r xs i j v :
+  In ((i, j), v) (row_entries r xs) <->
+  i = r /\ 0 <= j /\ nth_error xs (Z.to_nat j) = Some v /\ v <> 0 /\ r <= j.
+Proof.
+  unfold row_entries. rewrite in_map_iff. split.
+  - intros ([j' v'] & Heq & Hin). cbn [fst snd] in Heq. inversion Heq; subst.
+    apply filter_In in Hin. destruct Hin as [Hin Hp]. cbn [fst snd] in Hp.
+    unfold enumerate in Hin. apply in_enumerate_gen in Hin. replace (j - 0) with j in Hin by lia.
+    repeat split; try tauto; lia.
+  - intros (-> & Hj & Hn & Hv & Hr). exists (j, v). split; [reflexivity|].
+    apply filter_In. split.
+    + unfold enumerate. apply in_enumerate_gen. replace (j - 0) with j by lia. tauto.
+    + cbn [fst snd]. lia.
+Qed.
+
+Lemma in_span_rec : forall X lo i j v,
+  In ((i, j), v) (span_rec lo X) <->
+  lo <= i /\ 0 <= j /\ i <= j /\ v <> 0 /\
+  exists xs, nth_error X (Z.to_nat (i - lo)) = Some xs /\ nth_error xs (Z.to_nat j) = Some v.
+Proof.
+  induction X as [|x t IH]; intros lo i j v.
+  - simpl. split; [tauto|]. intros (_ & _ & _ & _ & xs & H & _). destruct (Z.to_nat (i - lo)); discriminate.
+  - cbn [span_rec]. rewrite in_app_iff, in_row_entries, IH. split.
+    + intros [(-> & Hj & Hn & Hv & Hr)|(Hlo & Hj & Hij & Hv & xs & Hx & Hn)].
+      * repeat split; try lia; auto. exists x. replace (lo - lo) with 0 by lia. auto.
+      * repeat split; try lia; auto. exists xs.
+        replace (Z.to_nat (i - lo)) with (S (Z.to_nat (i - (lo + 1)))) by lia. auto.
+    + intros (Hlo & Hj & Hij & Hv & xs & Hx & Hn). destruct (Z.eq_dec i lo) as [->|Hne].
+      * left. replace (lo - lo) with 0 in Hx by lia. simpl in Hx. inversion Hx; subst. repeat split; auto.
+      * right. repeat split; try lia; auto. exists xs.
+        replace (Z.to_nat (i - lo)) with (S (Z.to_nat (i - (lo + 1)))) in Hx by lia. auto.
+Qed.
+
+Theorem triu_entries_spec A i j v :
+  In ((i, j), v) (triu_entries A) <->
+  0 <= i <= j /\ v <> 0 /\
+  exists xs, nth_error A (Z.to_nat i) = Some xs /\ nth_error xs (Z.to_nat j) = Some v.
+Proof.
+  unfold triu_entries. rewrite span_chunk_rec, in_span_rec. replace (i - 0) with i by lia.
+  split; intros H; decompose record H; repeat split; eauto; lia.
+Qed.
+
+(** sortedness *)
+Lemma SS_filter {T} (R : T -> T -> Prop) f l : StronglySorted R l -> StronglySorted R (filter f l).
+Proof.
+  induction 1 as [|x t Hs IH Hf]; simpl; [constructor|].
+  destruct (f x); [|exact IH]. constructor; [exact IH|].
+  rewrite Forall_forall in *. intros y Hy. apply filter_In in Hy. apply Hf. tauto.
+Qed.
+
+Lemma SS_map {T U} (R : T -> T -> Prop) (R' : U -> U -> Prop) (g : T -> U) l :
+  (forall x y, R x y -> R' (g x) (g y)) -> StronglySorted R l -> StronglySorted R' (map g l).
+Proof.
+  intros Hg. induction 1 as [|x t Hs IH Hf]; simpl; constructor; auto.
+  rewrite Forall_forall in *. intros y Hy. apply in_map_iff in Hy. destruct Hy as (z & <- & Hz). auto.
+Qed.
+
+Lemma SS_app {T} (R : T -> T -> Prop) a b :
+  StronglySorted R a -> StronglySorted R b -> (forall x y, In x a -> In y b -> R x y) ->
+  StronglySorted R (a ++ b).
+Proof.
+  induction 1 as [|x t Hs IH Hf]; intros Hb Hab; simpl; [exact Hb|].
+  constructor.
+  - apply IH; auto. intros; apply Hab; simpl; auto.
+  - rewrite Forall_forall in *. intros y Hy. apply in_app_iff in Hy. destruct Hy; [auto|]. apply Hab; simpl; auto.
+Qed.
+
+Lemma enum_sorted (xs : list Z) : forall a,
+  StronglySorted (fun p q : Z * Z => fst p < fst q) (combine (zrange a (length xs)) xs).
+Proof.
+  induction xs as [|x t IH]; intros a; [constructor|].
+  cbn [length]. rewrite zrange_cons. cbn [combine]. constructor; [apply IH|].
+  apply Forall_forall. intros [j v] Hin. apply in_enumerate_gen in Hin. simpl. lia.
+Qed.
+
+Lemma row_entries_sorted r xs : StronglySorted klt (keys (row_entries r xs)).
+Proof.
+  unfold keys, row_entries. rewrite map_map. cbn [fst].
+  apply (SS_map (fun p q : Z * Z => fst p < fst q)).
+  - intros x y H. unfold klt. simpl. lia.
+  - apply SS_filter. apply enum_sorted.
+Qed.
+
+Lemma span_rec_sorted : forall X lo, SSorted (span_rec lo X).
+Proof.
+  unfold SSorted. induction X as [|x t IH]; intros lo; simpl; [constructor|].
+  unfold keys in *. rewrite map_app. apply SS_app.
+  - apply row_entries_sorted.
+  - apply IH.
+  - intros k1 k2 H1 H2. apply in_map_iff in H1. destruct H1 as ([[i1 j1] v1] & <- & H1).
+    apply in_map_iff in H2. destruct H2 as ([[i2 j2] v2] & <- & H2).
+    apply in_row_entries in H1. apply in_span_rec in H2. unfold klt. simpl. lia.
+Qed.
+
+Theorem triu_entries_sorted A : SSorted (triu_entries A).
+Proof. unfold triu_entries. rewrite span_chunk_rec. apply span_rec_sorted. Qed.
+
+(** array_loader_spec: for every array and every chunksize >= 1 the concatenated chunks are strictly sorted by
+    (bin1, bin2), upper triangular, and are exactly the non-zero entries on or above the diagonal; for a square
+    array all ids are in range *)
+Definition square (n : Z) (A : list (list Z)) : Prop := zlen A = n /\ Forall (fun xs => zlen xs = n) A.
+
+Theorem array_loader_spec A c : 1 <= c ->
+  let out := concat (array_loader A c) in
+  SSorted out /\
+  (forall i j v, In ((i, j), v) out <->
+     0 <= i <= j /\ v <> 0 /\ exists xs, nth_error A (Z.to_nat i) = Some xs /\ nth_error xs (Z.to_nat j) = Some v) /\
+  upper_b out = true /\
+  (forall n, square n A -> inrange_b n out = true).
+Proof.
+  intros Hc out. unfold out. rewrite (array_loader_concat A c Hc).
+  split; [apply triu_entries_sorted|]. split; [apply triu_entries_spec|]. split.
+  - unfold upper_b. apply forallb_forall. intros [[i j] v] Hin. apply triu_entries_spec in Hin.
+    unfold row, col. simpl. lia.
+  - intros n [Hn Hsq]. unfold inrange_b. apply forallb_forall. intros [[i j] v] Hin.
+    apply triu_entries_spec in Hin. destruct Hin as (Hij & Hv & xs & Hx & Hjv).
+    unfold row, col. simpl.
+    assert (Hi : (Z.to_nat i < length A)%nat) by (apply nth_error_Some; congruence).
+    assert (Hj : (Z.to_nat j < length xs)%nat) by (apply nth_error_Some; congruence).
+    apply nth_error_In in Hx. rewrite Forall_forall in Hsq. specialize (Hsq xs Hx).
+    unfold zlen in *. lia.
+Qed.
+
+(** * the full-matrix view of a stored table *)
+Lemma look_cons k' v t k : look ((k', v) :: t) k = (if keqb k k' then v else 0) + look t k.
+Proof.
+  simpl. f_equal. destruct (kcmp k k') eqn:E.
+  - apply kcmp_eq in E. subst. unfold keqb. now rewrite !Z.eqb_refl.
+  - apply kcmp_lt in E. unfold klt, keqb in *. destruct ((fst k =? fst k') && (snd k =? snd k')) eqn:B; [lia|reflexivity].
+  - apply kcmp_gt in E. unfold klt, keqb in *. destruct ((fst k =? fst k') && (snd k =? snd k')) eqn:B; [lia|reflexivity].
+Qed.
+
+Lemma look_mirror px : forall i j,
+  look (map flip (filter (fun p => negb (row p =? col p)) px)) (i, j) = if i =? j then 0 else look px (j, i).
+Proof.
+  induction px as [|[[a b] v] t IH]; intros i j.
+  - simpl. now destruct (i =? j).
+  - rewrite (look_cons (a, b) v t). cbn [filter]. unfold row, col at 1 2. cbn [fst snd].
+    destruct (a =? b) eqn:Eab; cbn [negb].
+    + rewrite IH. unfold keqb. cbn [fst snd]. destruct (i =? j) eqn:Eij; [reflexivity|].
+      destruct ((j =? a) && (i =? b)) eqn:B; lia.
+    + cbn [map]. unfold flip at 1. unfold row, col, val. cbn [fst snd].
+      rewrite look_cons, IH. unfold keqb. cbn [fst snd].
+      destruct (i =? j) eqn:Eij; destruct ((i =? b) && (j =? a)) eqn:B1; destruct ((j =? a) && (i =? b)) eqn:B2; lia.
+Qed.
+
+Lemma look_upper_zero px i j : upper_b px = true -> j < i -> look px (i, j) = 0.
+Proof.
+  unfold upper_b. induction px as [|[[a b] v] t IH]; intros Hu Hji; [reflexivity|].
+  simpl in Hu. apply andb_true_iff in Hu. destruct Hu as [Hab Hu]. unfold row, col in Hab. simpl in Hab.
+  rewrite look_cons, IH by auto. unfold keqb. simpl. destruct ((i =? a) && (j =? b)) eqn:B; lia.
+Qed.
+
+(** values: the sparse full view has the value of the symmetric completion at every cell *)
+Theorem sparse_full_symm px i j : upper_b px = true ->
+  look (sparse_full true px) (i, j) = symm px i j.
+Proof.
+  intros Hu. unfold sparse_full, symm. rewrite look_app, look_mirror.
+  destruct (i =? j) eqn:E1; destruct (i <=? j) eqn:E2; try lia.
+  - rewrite (look_upper_zero px j i) by (auto; lia). lia.
+  - rewrite (look_upper_zero px i j) by (auto; lia). lia.
+Qed.
+
+Lemma SS_NoDup (l : list key) : StronglySorted klt l -> NoDup l.
+Proof.
+  induction 1 as [|x t Hs IH Hf]; constructor; auto.
+  intros Hin. rewrite Forall_forall in Hf. apply (klt_irrefl x). auto.
+Qed.
+
+Lemma NoDup_app_intro {T} (a b : list T) :
+  NoDup a -> NoDup b -> (forall x, In x a -> ~ In x b) -> NoDup (a ++ b).
+Proof.
+  induction 1 as [|x t Hx Ht IH]; intros Hb Hab; simpl; [exact Hb|].
+  constructor.
+  - rewrite in_app_iff. intros [H|H]; [auto|]. apply (Hab x); simpl; auto.
+  - apply IH; auto. intros y Hy. apply Hab. simpl; auto.
+Qed.
+
+Lemma NoDup_keys_filter f (px : list pixel) : NoDup (keys px) -> NoDup (keys (filter f px)).
+Proof.
+  unfold keys. induction px as [|p t IH]; simpl; intros H; [constructor|].
+  inversion H; subst. destruct (f p); simpl; [|auto]. constructor; auto.
+  intros Hin. apply H2. apply in_map_iff in Hin. destruct Hin as (q & Hq & Hin).
+  apply filter_In in Hin. apply in_map_iff. exists q. tauto.
+Qed.
+
+Definition swap (k : key) : key := (snd k, fst k).
+
+Lemma keys_flip l : keys (map flip l) = map swap (keys l).
+Proof. unfold keys. rewrite !map_map. apply map_ext. intros [[a b] v]. reflexivity. Qed.
+
+(** keys: exactly the keys of the completion, each once *)
+Theorem sparse_full_keys px : SSorted px -> upper_b px = true ->
+  NoDup (keys (sparse_full true px)) /\
+  forall i j, In (i, j) (keys (sparse_full true px)) <->
+              In (i, j) (keys px) \/ (i <> j /\ In (j, i) (keys px)).
+Proof.
+  intros Hs Hu. unfold sparse_full.
+  assert (Hnd : NoDup (keys px)) by (apply SS_NoDup; exact Hs).
+  assert (Hup : forall a b, In (a, b) (keys px) -> a <= b).
+  { intros a b Hin. unfold keys in Hin. apply in_map_iff in Hin. destruct Hin as ([[a' b'] v] & Heq & Hin).
+    simpl in Heq. inversion Heq; subst. unfold upper_b in Hu. rewrite forallb_forall in Hu.
+    specialize (Hu _ Hin). unfold row, col in Hu. simpl in Hu. lia. }
+  assert (Hmir : forall i j, In (i, j) (keys (map flip (filter (fun p => negb (row p =? col p)) px))) <->
+                             i <> j /\ In (j, i) (keys px)).
+  { intros i j. rewrite keys_flip, in_map_iff. split.
+    - intros ([a b] & Heq & Hin). unfold swap in Heq. simpl in Heq. inversion Heq; subst.
+      unfold keys in Hin. apply in_map_iff in Hin. destruct Hin as ([[a' b'] v] & Heq' & Hin).
+      simpl in Heq'. inversion Heq'; subst. apply filter_In in Hin. destruct Hin as [Hin Hne].
+      unfold row, col in Hne. simpl in Hne. split; [lia|]. unfold keys. apply in_map_iff. exists ((j, i), v). auto.
+    - intros [Hne Hin]. exists (j, i). split; [reflexivity|].
+      unfold keys in *. apply in_map_iff in Hin. destruct Hin as ([[a' b'] v] & Heq' & Hin).
+      simpl in Heq'. inversion Heq'; subst. apply in_map_iff. exists ((j, i), v). split; [reflexivity|].
+      apply filter_In. split; [auto|]. unfold row, col. simpl. lia. }
+  split.
+  - unfold keys at 1. rewrite map_app. apply NoDup_app_intro.
+    + exact Hnd.
+    + fold (keys (map flip (filter (fun p => negb (row p =? col p)) px))). rewrite keys_flip.
+      apply Injective_map_NoDup.
+      * intros [a b] [c d] H. unfold swap in H. simpl in H. inversion H; subst. reflexivity.
+      * apply NoDup_keys_filter. exact Hnd.
+    + intros [i j] Hin Hin2. fold (keys px) in Hin.
+      fold (keys (map flip (filter (fun p => negb (row p =? col p)) px))) in Hin2.
+      apply Hmir in Hin2. destruct Hin2 as [Hne Hin2]. apply Hup in Hin. apply Hup in Hin2. lia.
+  - intros i j. unfold keys at 1. rewrite map_app, in_app_iff.
+    fold (keys px). fold (keys (map flip (filter (fun p => negb (row p =? col p)) px))).
+    rewrite Hmir. tauto.
+Qed.
+
+(** * sort_rows (DataFrame.sort_values on the two id columns) *)
+Section Sort.
+Context {V : Type}.
+Notation rowT := (key * V)%type.
+
+Definition kle (a b : key) : Prop := klt a b \/ a = b.
+
+Lemma kltb_false_kle a b : kltb a b = false -> kle b a.
+Proof.
+  intros H. unfold kle, klt. unfold kltb in H. destruct a as [a1 a2], b as [b1 b2]. simpl in *.
+  destruct (Z.eq_dec a1 b1), (Z.eq_dec a2 b2); subst; auto; left; lia.
+Qed.
+
+Lemma insert_row_perm (r : rowT) s : Permutation (insert_row r s) (r :: s).
+Proof.
+  induction s as [|h t IH]; simpl; [reflexivity|].
+  destruct (kltb (fst h) (fst r)); [|reflexivity].
+  rewrite IH. apply perm_swap.
+Qed.
+
+Theorem sort_rows_perm (l : list rowT) : Permutation (sort_rows l) l.
+Proof. induction l as [|r t IH]; simpl; [reflexivity|]. now rewrite insert_row_perm, IH. Qed.
+
+Definition RSorted (l : list rowT) : Prop := StronglySorted kle (map fst l).
+
+Lemma kle_trans a b c : kle a b -> kle b c -> kle a c.
+Proof. unfold kle, klt. intros [H1 | ->] [H2 | ->]; auto. left. lia. Qed.
+
+Lemma insert_row_sorted (r : rowT) s : RSorted s -> RSorted (insert_row r s).
+Proof.
+  unfold RSorted. induction s as [|h t IH]; simpl; intros Hs.
+  - constructor; constructor.
+  - inversion Hs as [|? ? Hs' Hf]; subst.
+    destruct (kltb (fst h) (fst r)) eqn:E; simpl.
+    + constructor; [auto|]. rewrite Forall_forall in *. intros k Hk.
+      apply in_map_iff in Hk. destruct Hk as (q & <- & Hq).
+      apply (Permutation_in _ (insert_row_perm r t)) in Hq. destruct Hq as [<-|Hq].
+      * left. now apply kltb_spec.
+      * apply Hf. now apply in_map.
+    + apply kltb_false_kle in E. constructor; [exact Hs|]. constructor; [exact E|].
+      rewrite Forall_forall in *. intros k Hk. eapply kle_trans; [exact E|]. auto.
+Qed.
+
+Theorem sort_rows_sorted (l : list rowT) : RSorted (sort_rows l).
+Proof. induction l as [|r t IH]; simpl; [constructor|]. now apply insert_row_sorted. Qed.
+
+(** without repeated keys the result is strictly sorted *)
+Theorem sort_rows_ssorted (l : list rowT) : NoDup (map fst l) -> StronglySorted klt (map fst (sort_rows l)).
+Proof.
+  intros Hnd.
+  assert (Hnd' : NoDup (map fst (sort_rows l))).
+  { eapply Permutation_NoDup; [|exact Hnd]. apply Permutation_map. symmetry. apply sort_rows_perm. }
+  pose proof (sort_rows_sorted l) as Hs. unfold RSorted in Hs.
+  induction Hs as [|k t Hs IH Hf]; [constructor|].
+  inversion Hnd'; subst. constructor; [auto|].
+  rewrite Forall_forall in *. intros y Hy. destruct (Hf y Hy) as [H|H]; [exact H|]. subst. tauto.
+Qed.
+
+(** two strictly sorted tables with the same rows are equal: the stored order does not depend on the row order
+    of the frame *)
+Lemma ssorted_perm_eq (a b : list rowT) :
+  StronglySorted klt (map fst a) -> StronglySorted klt (map fst b) -> Permutation a b -> a = b.
+Proof.
+  revert b. induction a as [|x a IH]; intros b Ha Hb Hp.
+  - apply Permutation_nil in Hp. now subst.
+  - destruct b as [|y b]; [symmetry in Hp; apply Permutation_nil in Hp; discriminate|].
+    simpl in Ha, Hb. inversion Ha as [|? ? Ha' Hfa]; inversion Hb as [|? ? Hb' Hfb]; subst.
+    assert (Hxy : x = y).
+    { assert (Hx : In x (y :: b)) by (eapply Permutation_in; [exact Hp|]; simpl; auto).
+      assert (Hy : In y (x :: a)) by (eapply Permutation_in; [symmetry; exact Hp|]; simpl; auto).
+      destruct Hx as [-> | Hx]; [reflexivity|]. destruct Hy as [-> | Hy]; [reflexivity|].
+      exfalso. rewrite Forall_forall in Hfa, Hfb.
+      apply (klt_irrefl (fst x)). eapply klt_trans.
+      - apply Hfa. apply in_map. exact Hy.
+      - apply Hfb. apply in_map. exact Hx. }
+    subst y. f_equal. apply IH; auto. eapply Permutation_cons_inv. exact Hp.
+Qed.
+
+Theorem sort_rows_order_independent (l l' : list rowT) :
+  NoDup (map fst l) -> Permutation l l' -> sort_rows l = sort_rows l'.
+Proof.
+  intros Hnd Hp. apply ssorted_perm_eq.
+  - now apply sort_rows_ssorted.
+  - apply sort_rows_ssorted. eapply Permutation_NoDup; [|exact Hnd]. now apply Permutation_map.
+  - rewrite (sort_rows_perm l), (sort_rows_perm l'). exact Hp.
+Qed.
+
+Theorem sort_rows_sorted_id (l : list rowT) : StronglySorted klt (map fst l) -> sort_rows l = l.
+Proof.
+  intros Hs. apply ssorted_perm_eq; auto.
+  - apply sort_rows_ssorted. clear -Hs. induction Hs as [|k t Hs IH Hf]; constructor; auto. intros Hin. rewrite Forall_forall in Hf. apply (klt_irrefl k). auto.
+  - apply sort_rows_perm.
+Qed.
+End Sort.
+
+(** * info(): metadata and assembly *)
+Section InfoThm.
+Context {J : Type}.
+Variable loads : string -> option J.
+Variable dumps : J -> string.
+Hypothesis loads_dumps : forall d, loads (dumps d) = Some d.
+
+Theorem metadata_roundtrip (empty_doc d : J) : info_metadata loads dumps empty_doc (Some d) = inl d.
+Proof. unfold info_metadata, info_decode, attr_metadata. now rewrite loads_dumps. Qed.
+
+Theorem metadata_default (empty_doc : J) : info_metadata loads dumps empty_doc None = inl empty_doc.
+Proof. unfold info_metadata, info_decode, attr_metadata. now rewrite loads_dumps. Qed.
+
+(** guarded: a name that is not itself a JSON document comes back unchanged *)
+Theorem assembly_roundtrip (a : string) : loads a = None -> info_assembly loads (Some a) = inr a.
+Proof. intros H. unfold info_assembly, info_decode, attr_assembly. now rewrite H. Qed.
+
+(** the mechanism of known finding D13: a name that parses as JSON comes back decoded *)
+Theorem assembly_decoded (a : string) (j : J) : loads a = Some j -> info_assembly loads (Some a) = inl j.
+Proof. intros H. unfold info_assembly, info_decode, attr_assembly. now rewrite H. Qed.
+End InfoThm.
+
+(** the unguarded statement is false of the faithful model: "123" reads back as the integer 123 *)
+Theorem assembly_roundtrip_refuted :
+  exists a : string, info_assembly json_word (Some a) <> inr a /\ info_assembly json_word (Some a) = inl (JInt 123).
+Proof. exists "123"%string. split; [discriminate|reflexivity]. Qed.
+
+(** * create followed by the full-matrix read *)
+Section MatrixRoundtrip.
+Context {V : Type}.
+Notation rowT := (key * V)%type.
+Variable dflt : rowT.
+Variable fits : rowT -> bool.
+Variable count : option (rowT -> Z).
+
+Lemma keys_px_of (f : V -> Z) (rows : list rowT) : keys (px_of f rows) = map fst rows.
+Proof. unfold keys, px_of. rewrite map_map. reflexivity. Qed.
+
+Lemma upper_of_chunks n bc dc (f : V -> Z) (chunks : list (list rowT)) :
+  Forall (chunk_ok n bc true dc) chunks -> upper_b (px_of f (concat chunks)) = true.
+Proof.
+  intros H. unfold upper_b, px_of. rewrite forallb_forall. intros p Hp.
+  apply in_map_iff in Hp. destruct Hp as (r & <- & Hr). apply in_concat in Hr. destruct Hr as (ch & Hch & Hr).
+  rewrite Forall_forall in H. destruct (H ch Hch) as (_ & Ht & _). specialize (Ht eq_refl).
+  rewrite Forall_forall in Ht. specialize (Ht r Hr). unfold row, col, key in *. simpl in *. lia.
+Qed.
+
+(** C01 create_matrix_roundtrip.  For every stream accepted with the default triangularity check and every value
+    column f: the dense full matrix of the created cooler is the symmetric completion of the input records
+    (symmetric-upper) or the input matrix itself (square); the sparse full matrix has the same value at every
+    cell; and when the stream is strictly sorted every key of the completion is present exactly once and nothing
+    else is. *)
+Theorem create_matrix_roundtrip n su bc dc chunks c (f : V -> Z) :
+  create dflt fits count n su bc true dc false chunks = inr c ->
+  let px := px_of f (concat chunks) in
+  let got := px_of f (read_pixels c) in
+  (forall i j, dense_full (c_symm c) got i j = if su then symm px i j else look px (i, j)) /\
+  (forall i j, look (sparse_full (c_symm c) got) (i, j) = if su then symm px i j else look px (i, j)) /\
+  (SSorted px ->
+     NoDup (keys (sparse_full (c_symm c) got)) /\
+     forall i j, In (i, j) (keys (sparse_full (c_symm c) got)) <->
+                 In (i, j) (keys px) \/ (su = true /\ i <> j /\ In (j, i) (keys px))).
+Proof.
+  intros H px got. apply create_ok_spec in H. cbv zeta in H.
+  destruct H as (_ & Hread & _ & _ & Hsym & _ & Hok & _).
+  assert (Hid : map (prep false) chunks = chunks) by (unfold prep; apply map_id).
+  rewrite Hid in Hread. unfold got. rewrite Hread, Hsym. fold px.
+  destruct su.
+  - assert (Hu : upper_b px = true) by (apply (upper_of_chunks n bc dc); exact Hok).
+    split; [reflexivity|]. split; [intros; now apply sparse_full_symm|].
+    intros Hs. destruct (sparse_full_keys px Hs Hu) as [Hnd Hk]. split; [exact Hnd|].
+    intros i j. rewrite Hk. intuition congruence.
+  - split; [reflexivity|]. split; [reflexivity|].
+    intros Hs. simpl. split; [now apply SS_NoDup|]. intros i j. intuition congruence.
+Qed.
+End MatrixRoundtrip.
